@@ -286,8 +286,15 @@ func (r *yieldRewriter) rewriteStmt(
 		// ↓↓ non-trival branch ↓↓
 		return r.rewriteForStmt(stmt, children)
 
-	// rewritten in pass1
-	// case *ast.RangeStmt:
+	// rewritten in pass1, except the ones it can't lower (e.g. over a pointer to an array)
+	case *ast.RangeStmt:
+		// ↓↓ trival branch ↓↓
+		// kept as is, but the body must be checked like any other loop body,
+		// defer / select / labeled-stmt are not supported anywhere in a yield func
+		r.assert(r.mustNoYield(stmt), stmt, "yield not supported in %T", stmt)
+		r.rewriteBlockStmt(stmt.Body, kindFor) // for checking only
+		children.push(stmt, kindTrival)
+		return children
 
 	case *ast.SelectStmt, *ast.CommClause,
 		*ast.LabeledStmt, *ast.CaseClause,
